@@ -220,6 +220,10 @@ def run_impl(sc, workdir):
                 warnings.simplefilter('ignore')
                 (w.add_nodal_field if k == 'nodal' else w.add_cell_field)(op['name'], data, FTE[op['ft']], DTE[op['dt']])
             rows = data.reshape(n, -1).tolist()
+            # the caller re-uses its buffer after handing it over (a scratch array filled with the next quantity):
+            # the writer must have taken a snapshot -- "parsing the file returns the field values that were supplied"
+            if isinstance(data, np.ndarray) and data.flags.writeable:
+                data[...] = 7
             term = '[' + '; '.join('[' + '; '.join(val(x) for x in row) + ']' for row in rows) + ']'
             mops.append('%s (%d) %s %s %s' % ('OpNodal' if k == 'nodal' else 'OpCell', NAMES.index(op['name']), term,
                                               FT[op['ft']], DT_COQ[op['dt']]))
